@@ -31,8 +31,11 @@ def node_src(n, ind="") -> list[str]:
         deco = {"static": "@staticmethod", "classmethod": "@classmethod", "property": "@property"}
         if "overload" in flags:
             ps1 = ps.replace("a: int", "a: str")
-            L += [f"{ind}@overload", f"{ind}def {name}({ps}) -> int: ...", "", f"{ind}@overload", f"{ind}def {name}({ps1}) -> int: ...", ""]
+            extra = [f"{ind}{deco[f]}" for f in ("static", "classmethod") if f in flags]
+            L += [f"{ind}@overload", *extra, f"{ind}def {name}({ps}) -> int: ...", "", f"{ind}@overload", *extra, f"{ind}def {name}({ps1}) -> int: ...", ""]
             ps = ps.replace("a: int", "a")
+            if "deco" in flags:
+                L.append(f"{ind}@functools.lru_cache")
         for f in ("static", "classmethod", "property"):
             if f in flags:
                 L.append(f"{ind}{deco[f]}")
@@ -56,7 +59,7 @@ def node_src(n, ind="") -> list[str]:
 
 
 def module_src(m) -> str:
-    L = ["from enum import Enum", "from typing import overload", f"from {PKG}.basemod import BaseA, BaseB", f"from {PKG}.basemod import BaseA as AliasA", ""]
+    L = ["from enum import Enum", "import functools", "from typing import overload", f"from {PKG}.basemod import BaseA, BaseB", f"from {PKG}.basemod import BaseA as AliasA", ""]
     for c in m["ch"]:
         L += node_src(c)
     return "\n".join(L) + "\n"
